@@ -34,8 +34,20 @@ static inline DenseProd dense_prod(RealMatrix *A, RealMatrix *B)
 }
 /* the printed C takes the address of these temporaries: compound literals are lvalues */
 #define RealMatrix_mul(A, B) (*(DenseProd[1]){ dense_prod((A), (B)) })
-static inline SparseViewT dense_sparse_view(DenseProd *p, double reference) { SparseViewT v; v.rows = p->rows; v.cols = p->cols; return v; }
-#define DenseProd_sparseView(p, ref) (*(SparseViewT[1]){ dense_sparse_view((p), (ref)) })
+/* Eigen signatures (Eigen/src/SparseCore/SparseView.h, SparseMatrix.h, Core/MathFunctions.h):
+ *     MatrixBase::sparseView(const Scalar& reference = Scalar(0), const RealScalar& epsilon = NumTraits<Scalar>::dummy_precision())
+ *     SparseMatrix::prune(const Scalar& reference, const RealScalar& epsilon = NumTraits<RealScalar>::dummy_precision())
+ * an entry x is DROPPED iff internal::isMuchSmallerThan(x, reference, epsilon), i.e. |x| <= |reference| * epsilon, and kept otherwise:
+ * the FIRST argument is a reference magnitude, not a tolerance; the absolute cut-off is |reference| * epsilon with
+ * dummy_precision<double>() = 1e-12.  (The one-argument calls sparseView(1e-8) / prune(1e-8) therefore cut at 1e-20, the
+ * two-argument calls (1, 1e-8) at 1e-8.)  The coefficients of the results are not modelled (header comment), so the
+ * arguments do not influence the model: both forms yield a compressed matrix of the same dimensions with arbitrary content.
+ * The two-argument forms are printed under the names DenseProd_sparseView2 / SparseRM_prune2 (spec: `//@rename DenseProd_sparseView/2 => DenseProd_sparseView2`,
+ * `//@rename SparseRM_prune/2 => SparseRM_prune2`). */
+#define DENSEPROD_DUMMY_PRECISION 1e-12
+static inline SparseViewT dense_sparse_view(DenseProd *p, double reference, double epsilon) { SparseViewT v; v.rows = p->rows; v.cols = p->cols; return v; }
+#define DenseProd_sparseView(p, ref)       (*(SparseViewT[1]){ dense_sparse_view((p), (ref), DENSEPROD_DUMMY_PRECISION) })
+#define DenseProd_sparseView2(p, ref, eps) (*(SparseViewT[1]){ dense_sparse_view((p), (ref), (eps)) })
 static inline void sparse_fresh_arrays(SparseM *m, long outer, long inner)
 {
   m->outerSize = outer; m->innerSize = inner;
@@ -53,11 +65,13 @@ static inline void SparseRM_assign(SparseRM *dst, SparseViewT *v)
   __CPROVER_assert(0 <= v->rows && v->rows <= SP_MAX && 0 <= v->cols && v->cols <= SP_MAX, "sparse model: dimensions within SP_MAX");
   sparse_fresh_arrays(dst, v->rows, v->cols);         /* ASSUMED P2: RowMajor: outer = rows */
 }
-static inline void SparseRM_prune(SparseRM *m, double tol)
+static inline void sparse_rm_prune(SparseRM *m, double reference, double epsilon)
 {
   long o = m->outerSize, i = m->innerSize;
   sparse_fresh_arrays(m, o, i);                       /* ASSUMED P2: same dimensions, still compressed */
 }
+#define SparseRM_prune(m, ref)       sparse_rm_prune((m), (ref), DENSEPROD_DUMMY_PRECISION)
+#define SparseRM_prune2(m, ref, eps) sparse_rm_prune((m), (ref), (eps))
 /* ColMajor = RowMajor (same matrix, other storage order) */
 static inline void SparseCM_assign(SparseCM *dst, SparseRM *src)
 {
